@@ -286,6 +286,9 @@ func cmdCheck(args []string) int {
 		fmt.Printf("  kind=%s %s\n", v.Key(), trunc(v.Detail, 600))
 		exit = 1
 	}
+	if merged.Counters["inconclusive_fatal"] > 0 {
+		inconclusive = true
+	}
 	distinct := len(merged.Signatures)
 	if exit == 0 && (inconclusive || distinct < def.MinSigs || merged.Evaluations == 0) {
 		if distinct < def.MinSigs {
